@@ -136,6 +136,67 @@ def endianness_purity(chk, fx):
         chk.floor("endianness-purity", f"{nm} byte-order calls", cnt, 16)
 
 
+def vr_code(chk, fx, variants):
+    chk.rule("vr-code", "VR::to_string and <VR as FromStr>::from_str are inverse bijections between the 34 variants and 34 distinct "
+             "two-upper-case-letter literals equal to the variant names; every other string is an error; from_binary goes through "
+             "from_str only; to_bytes takes bytes [0],[1] of to_string")
+    h = fx.hirfn(f"{C.VR_ENUM}::to_string")
+    ms = H.matches_over(h["body"], lambda t: t == C.VR_ENUM)
+    if len(ms) != 1:
+        raise facts.MissingAnchor("VR::to_string: match over VR")
+    table, arms = H.enum_table(ms[0], variants, C.VR_ENUM)
+    to_s = {}
+    for v in variants:
+        idxs = table[v]
+        lit = H.lit(arms[idxs[0]][2]) if idxs else None
+        to_s[v] = lit[1] if lit and lit[0] == "str" else None
+        chk.expect(to_s[v] == v, "vr-code", "VR::to_string", v, v, to_s[v], loc=f"{h['loc']['f']}:{arms[idxs[0]][3] if idxs else 0}")
+    chk.expect(len(set(to_s.values())) == 34, "vr-code", "VR::to_string", "distinct-codes", 34, len(set(to_s.values())))
+    h = fx.hirfn(f"<{C.VR_ENUM} as core::str::traits::FromStr>::from_str")
+    ms = [m for m in H.walk(h["body"]) if H.kind(m) == "match" and m[3].lstrip("&").strip() == "str"]
+    if len(ms) != 1:
+        raise facts.MissingAnchor("VR::from_str: match over &str")
+    from_s = {}
+    wild_err = False
+    for p, g, b, ln in H.match_arms(ms[0]):
+        for alt in H.pat_alts(p):
+            hd = H.pat_head(alt)
+            if hd[0] == "lit":
+                bb = H.peel(b)
+                ok = H.kind(bb) == "call" and (H.callee(bb) or "").endswith("result::Result::Ok")
+                vp = H.path_of(bb[3][0]) if ok and bb[3] else None
+                from_s[hd[1]] = (vp or "?").split("::")[-1] if ok else "not-Ok"
+                if g is not None:
+                    from_s[hd[1]] += "+guard"
+            elif hd[0] == "wild":
+                bb = H.peel(b)
+                wild_err = H.kind(bb) == "call" and (H.callee(bb) or "").endswith("result::Result::Err")
+    chk.expect(wild_err, "vr-code", "VR::from_str", "wildcard-arm", "_ => Err(..)", wild_err)
+    # "recognised iff defined": the table is applied to the input text itself, not to a normalised (case-folded, trimmed) copy
+    scr = H.peel(ms[0][2])
+    pnames = [b for prm in (h.get("params") or []) for b in H.pat_bindings(prm)]
+    chk.expect(H.kind(scr) == "path" and scr[3] == "local" and H.path_of(scr) in pnames, "vr-code", "VR::from_str", "matches-the-input-itself",
+               f"match <parameter {pnames}> {{ .. }}", H.show(ms[0][2], 6), loc=C.fn_loc(h))
+    for v in variants:
+        chk.expect(from_s.get(v) == v, "vr-code", "VR::from_str", v, v, from_s.get(v))
+    extra = sorted(set(from_s) - set(variants))
+    chk.expect(not extra, "vr-code", "VR::from_str", "no-undefined-codes", "only the 34 defined codes", extra)
+    chk.sample({"rule": "vr-code", "from_str": from_s})
+    # from_binary
+    h = fx.hirfn(f"{C.VR_ENUM}::from_binary")
+    cs = [c for c, _ in H.calls(h["body"]) if c]
+    # closure inside calls from_str
+    chk.expect(any(c.endswith("FromStr::from_str") for c in cs) and any(c.endswith("str::converts::from_utf8") for c in cs)
+               and not H.matches_over(h["body"], lambda t: True), "vr-code", "VR::from_binary", "via-from_str",
+               "from_utf8(..).ok().and_then(from_str(..).ok()), no table of its own", cs, loc=C.fn_loc(h))
+    h = fx.hirfn(f"{C.VR_ENUM}::to_bytes")
+    idx = sorted(H.int_lit(x[3]) for x in H.walk(h["body"]) if H.kind(x) == "index" and H.int_lit(x[3]) is not None)
+    cs = [c for c, _ in H.calls(h["body"]) if c]
+    chk.expect(idx == [0, 1] and any(c.endswith("VR::to_string") for c in cs), "vr-code", "VR::to_bytes", "bytes[0],[1] of to_string",
+               [0, 1], {"indices": idx, "calls": cs}, loc=C.fn_loc(h))
+
+
+
 def run(chk, tier):
     fx = facts.load("W")
     ref = C.vr_ref()
@@ -321,58 +382,7 @@ def run(chk, tier):
             chk.expect(not narrow, "u16-length-guard", f"enc:{key}", f"{fn}/no-other-narrowing", "none", narrow)
 
     # ---------------- rule 5: VR code bijection
-    chk.rule("vr-code", "VR::to_string and <VR as FromStr>::from_str are inverse bijections between the 34 variants and 34 distinct "
-             "two-upper-case-letter literals equal to the variant names; every other string is an error; from_binary goes through "
-             "from_str only; to_bytes takes bytes [0],[1] of to_string")
-    h = fx.hirfn(f"{C.VR_ENUM}::to_string")
-    ms = H.matches_over(h["body"], lambda t: t == C.VR_ENUM)
-    if len(ms) != 1:
-        raise facts.MissingAnchor("VR::to_string: match over VR")
-    table, arms = H.enum_table(ms[0], variants, C.VR_ENUM)
-    to_s = {}
-    for v in variants:
-        idxs = table[v]
-        lit = H.lit(arms[idxs[0]][2]) if idxs else None
-        to_s[v] = lit[1] if lit and lit[0] == "str" else None
-        chk.expect(to_s[v] == v, "vr-code", "VR::to_string", v, v, to_s[v], loc=f"{h['loc']['f']}:{arms[idxs[0]][3] if idxs else 0}")
-    chk.expect(len(set(to_s.values())) == 34, "vr-code", "VR::to_string", "distinct-codes", 34, len(set(to_s.values())))
-    h = fx.hirfn(f"<{C.VR_ENUM} as core::str::traits::FromStr>::from_str")
-    ms = [m for m in H.walk(h["body"]) if H.kind(m) == "match" and m[3].lstrip("&").strip() == "str"]
-    if len(ms) != 1:
-        raise facts.MissingAnchor("VR::from_str: match over &str")
-    from_s = {}
-    wild_err = False
-    for p, g, b, ln in H.match_arms(ms[0]):
-        for alt in H.pat_alts(p):
-            hd = H.pat_head(alt)
-            if hd[0] == "lit":
-                bb = H.peel(b)
-                ok = H.kind(bb) == "call" and (H.callee(bb) or "").endswith("result::Result::Ok")
-                vp = H.path_of(bb[3][0]) if ok and bb[3] else None
-                from_s[hd[1]] = (vp or "?").split("::")[-1] if ok else "not-Ok"
-                if g is not None:
-                    from_s[hd[1]] += "+guard"
-            elif hd[0] == "wild":
-                bb = H.peel(b)
-                wild_err = H.kind(bb) == "call" and (H.callee(bb) or "").endswith("result::Result::Err")
-    chk.expect(wild_err, "vr-code", "VR::from_str", "wildcard-arm", "_ => Err(..)", wild_err)
-    for v in variants:
-        chk.expect(from_s.get(v) == v, "vr-code", "VR::from_str", v, v, from_s.get(v))
-    extra = sorted(set(from_s) - set(variants))
-    chk.expect(not extra, "vr-code", "VR::from_str", "no-undefined-codes", "only the 34 defined codes", extra)
-    chk.sample({"rule": "vr-code", "from_str": from_s})
-    # from_binary
-    h = fx.hirfn(f"{C.VR_ENUM}::from_binary")
-    cs = [c for c, _ in H.calls(h["body"]) if c]
-    # closure inside calls from_str
-    chk.expect(any(c.endswith("FromStr::from_str") for c in cs) and any(c.endswith("str::converts::from_utf8") for c in cs)
-               and not H.matches_over(h["body"], lambda t: True), "vr-code", "VR::from_binary", "via-from_str",
-               "from_utf8(..).ok().and_then(from_str(..).ok()), no table of its own", cs, loc=C.fn_loc(h))
-    h = fx.hirfn(f"{C.VR_ENUM}::to_bytes")
-    idx = sorted(H.int_lit(x[3]) for x in H.walk(h["body"]) if H.kind(x) == "index" and H.int_lit(x[3]) is not None)
-    cs = [c for c, _ in H.calls(h["body"]) if c]
-    chk.expect(idx == [0, 1] and any(c.endswith("VR::to_string") for c in cs), "vr-code", "VR::to_bytes", "bytes[0],[1] of to_string",
-               [0, 1], {"indices": idx, "calls": cs}, loc=C.fn_loc(h))
+    vr_code(chk, fx, variants)
 
     # ---------------- rule 6: unknown VR code decodes as UN
     chk.rule("unknown-vr-un", "explicit decoders map an unrecognised VR code to VR::UN (from_binary(..).unwrap_or(VR::UN))")
